@@ -2,6 +2,7 @@ package builder
 
 import (
 	"fmt"
+	"math/big"
 	"sort"
 
 	"github.com/dave/jennifer/jen"
@@ -69,7 +70,7 @@ func (*Enum) Build(gen Generator, ctx *MethodContext, sourceID *xtype.JenID, sou
 		}
 
 		sourceValue := sourceEnum.Members[sourceName]
-		if previous, ok := sourceTargetMapping[sourceValue]; ok {
+		if previous, ok := sourceTargetMapping[comparableValue(sourceValue)]; ok {
 			if enumTargetMismatches(previous, targetEnum, targetName) {
 				return nil, nil, enumTargetMismatchError(targetEnum, sourceName, targetName, previous, sourceValue).Lift(&Path{
 					SourceType: fmtEnumValue(sourceEnum, sourceName),
@@ -84,7 +85,7 @@ func (*Enum) Build(gen Generator, ctx *MethodContext, sourceID *xtype.JenID, sou
 					fmtEnumValue(sourceEnum, previous.Source), fmtEnumValue(targetEnum, previous.Target))))
 			}
 		} else {
-			sourceTargetMapping[sourceValue] = enumMapping{Source: sourceName, Target: targetName}
+			sourceTargetMapping[comparableValue(sourceValue)] = enumMapping{Source: sourceName, Target: targetName}
 			cases = append(cases, jen.Case(sourceQual).Add(body))
 		}
 	}
@@ -178,7 +179,7 @@ func executeTransformers(transformers []config.ConfiguredTransformer, source, ta
 
 func enumTargetMismatches(previous enumMapping, targetEnum *xtype.Enum, targetName string) bool {
 	if !config.IsEnumAction(targetName) && !config.IsEnumAction(previous.Target) {
-		return targetEnum.Members[previous.Target] != targetEnum.Members[targetName]
+		return comparableValue(targetEnum.Members[previous.Target]) != comparableValue(targetEnum.Members[targetName])
 	}
 	return targetName != previous.Target
 }
@@ -197,6 +198,22 @@ See https://goverter.jmattheis.de/guide/enum#mapping-enum-keys`,
 		sourceName, sourceValue, fmtEnumValue(targetEnum, targetName),
 		previous.Source, previous.Target,
 		sourceName, previous.Target))
+}
+
+// comparableValue makes constant values comparable with ==. Floats and integers
+// outside of the int64 range are represented by pointers to big numbers, which
+// would otherwise be compared by identity.
+func comparableValue(v interface{}) interface{} {
+	switch value := v.(type) {
+	case *big.Int:
+		return "int:" + value.String()
+	case *big.Rat:
+		return "rat:" + value.RatString()
+	case *big.Float:
+		return "float:" + value.Text('g', -1)
+	default:
+		return v
+	}
 }
 
 func fmtEnumValue(targetEnum *xtype.Enum, targetName string) string {
